@@ -499,6 +499,10 @@ def run(ctx):  # noqa: F811
     _c03.r03_3_cancellation(ctx)
     _c03.r03_1_skip_set(ctx)  # which stores the optimiser may not delete: a deleted store of a shared slot leaves its value on the stack (shared with C03)
     _c02.r02_2_convention(ctx)  # routine prologue pops exactly its own arguments / reads them through the frame (shared with C02)
+    from rules import c08 as _c08, c01 as _c01
+
+    _c08.r08_8_option_plumbing(ctx)  # frame-pointer wrappers are compiled with proto, scratch wrappers without (shared with C08)
+    _c01.r01_4e_flatten_traces(ctx)  # exactly one conditional branch consumes the condition of a conditional block (shared with C01)
     return (
         "Every emission site (class-level and factory-level, path-sensitive partial evaluation of constructors and __teal__) is typed against the op signature of the AVM "
         "reference table under the require_type constraints that dominate it; declared result types equal the op's pushes; hand-written op lists (WideRatio, Suffix, DupN, frame "
